@@ -496,7 +496,7 @@ pub fn replay(ctx: &Ctx, v: &Value) -> bool {
         "every-mode-number" => super::sweep::mode_number_replay(ctx, &SYS),
         "parameter-combinations" | "all-indices" | "long-sequences" | "after-aborted-sequences" | "every-parameter-value" => {
             let mut rep = Report::new();
-            let c2 = Ctx { id: ctx.id.clone(), tier: Tier::Thorough, seed: 0, start: ctx.start, known: ctx.known.clone(), replay_dir: ctx.replay_dir.clone() };
+            let c2 = Ctx { id: ctx.id.clone(), tier: if v["tier"] == "thorough" { Tier::Thorough } else { Tier::Quick }, seed: 0, start: ctx.start, known: ctx.known.clone(), replay_dir: ctx.replay_dir.clone() };
             combos(&c2, &mut rep);
             all_indices(&c2, &mut rep);
             long_sequences(&c2, &mut rep);
